@@ -33,9 +33,21 @@ type config struct {
 	Nodes []node `json:"nodes"`
 }
 
+// windowUnits: every interval_unit the quota files accept. The lengths are the gateway's own definitions of the
+// units (quota.type.go ParseWindow: a day is 24 h, a month 30 days - the plain month unit, not the calendar-aligned
+// monthly_renewal feature).
+var windowUnits = []string{"second", "second", "second", "second", "minute", "minute", "hour", "day", "month"}
+
 func unitDur(u string) time.Duration {
-	if u == "minute" {
+	switch u {
+	case "minute":
 		return time.Minute
+	case "hour":
+		return time.Hour
+	case "day":
+		return 24 * time.Hour
+	case "month":
+		return 30 * 24 * time.Hour
 	}
 	return time.Second
 }
@@ -77,7 +89,7 @@ func genConfig() *rapid.Generator[config] {
 			} else {
 				nd.Max = rapid.Int64Range(1, 5).Draw(t, "max")
 				nd.Every = rapid.Int64Range(1, 5).Draw(t, "interval")
-				nd.Unit = rapid.SampledFrom([]string{"second", "second", "second", "minute"}).Draw(t, "unit")
+				nd.Unit = rapid.SampledFrom(windowUnits).Draw(t, "unit")
 				if rapid.IntRange(0, 2).Draw(t, "grouped") == 0 {
 					nd.GroupBy = "x-g"
 				}
